@@ -9,6 +9,7 @@ import (
 	"path/filepath"
 	"reflect"
 	"strings"
+	"sync/atomic"
 
 	"verifharness/gen"
 	"verifharness/mc"
@@ -73,6 +74,11 @@ func runIns(r *mc.Run, scen string, c *gen.DebCompressor, ins []In, st *mc.Stats
 }
 
 func Run(r *mc.Run) {
+	defer func() {
+		r.Extra["map_order_executions_explicit"] = atomic.LoadInt64(&MapOrderExecs)
+		r.Extra["map_order_calls_capped"] = atomic.LoadInt64(&MapOrderCapped)
+		r.Extra["map_orders"] = MapOrderNote
+	}()
 	r.Rule = "every package of the stated product is built byte-exactly and loaded by the real deb.Load; cases are counted as distinct package byte strings (sha256); all are non-trivial in the sense that each differs from every other in at least one member byte, and only 1 in 36 compression pairs is the uncompressed baseline"
 	r.Assume = []string{
 		"compressed members are well-formed streams from stdlib gzip, klauspost zstd, kjk lzma (in-process) and python3 lzma/bz2 (xz, bzip2); hostile streams are C15's subject",
@@ -265,7 +271,8 @@ func Run(r *mc.Run) {
 			}
 		}
 	}
-	r.Scenario("map-orders", map[string]interface{}{"compression_pairs": mp, "extras": extras, "layouts": layouts, "second_control_or_data_member": dups,
+	MapOrderBound = r.Pick(1, 2)
+	r.Scenario("map-orders", map[string]interface{}{"map_order_deviation_bound": MapOrderBound, "compression_pairs": mp, "extras": extras, "layouts": layouts, "second_control_or_data_member": dups,
 		"orders": MapOrderNote, "repetitions": MapOrderReps}, len(det),
 		func(i int, st *mc.Stats) bool { return runIns(r, "map-orders", c, det[i:i+1], st) })
 }
